@@ -211,6 +211,28 @@ func kindOfType(t reflect.Type, kinds []ekind) int {
 	panic("harness: unknown element kind " + name)
 }
 
+// typedPlain returns the plain (well-formed) argument for a parameter of type
+// t out of its menu.
+func typedPlain(t reflect.Type, menu []snip) snip {
+	want := ""
+	switch t {
+	case reflect.TypeOf(b6.CollectionID{}):
+		want = "collection-id"
+	case reflect.TypeOf(b6.RelationID{}):
+		want = "/r/20"
+	case reflect.TypeOf(b6.AreaID{}):
+		want = "/a/13"
+	default:
+		return menu[0]
+	}
+	for _, x := range menu {
+		if x.label == want {
+			return x
+		}
+	}
+	panic("harness: no " + want + " in the menu of a parameter of type " + t.String())
+}
+
 // hparam is one (function, parameter) that accepts a collection, with the
 // tuples of the other arguments it is driven with (the slot of the collection
 // parameter itself is left empty).
@@ -285,13 +307,22 @@ func buildHetero(fns []fn, menus [][][]snip, thorough bool) *hetero {
 			}
 			// the other arguments: all plain, all edge (thorough: every combination of
 			// plain and edge), and every callable parameter over its whole menu with
-			// the rest plain
+			// the rest plain. "Plain" is entry 0 of the parameter's menu, except that a
+			// parameter declared as the id of a collection, relation or area takes the
+			// id of that type (the menu's entry 0 is a point id, which such a
+			// parameter rejects before the function body runs).
 			hp := hparam{fi: fi, pi: pi}
 			var oi []int
 			for pj := range f.params {
 				if pj != pi {
 					oi = append(oi, pj)
 				}
+			}
+			choice := func(pj, e int) snip {
+				if e == 0 {
+					return typedPlain(f.params[pj], menus[fi][pj])
+				}
+				return menus[fi][pj][1]
 			}
 			seen := map[string]bool{}
 			addTuple := func(t []snip) {
@@ -305,7 +336,7 @@ func buildHetero(fns []fn, menus [][][]snip, thorough bool) *hetero {
 				for mask := 0; mask < 1<<len(oi); mask++ {
 					t := make([]snip, len(f.params))
 					for b, pj := range oi {
-						t[pj] = menus[fi][pj][(mask>>b)&1]
+						t[pj] = choice(pj, (mask>>b)&1)
 					}
 					addTuple(t)
 				}
@@ -313,7 +344,7 @@ func buildHetero(fns []fn, menus [][][]snip, thorough bool) *hetero {
 				for e := 0; e < 2; e++ {
 					t := make([]snip, len(f.params))
 					for _, pj := range oi {
-						t[pj] = menus[fi][pj][e]
+						t[pj] = choice(pj, e)
 					}
 					addTuple(t)
 				}
@@ -325,7 +356,7 @@ func buildHetero(fns []fn, menus [][][]snip, thorough bool) *hetero {
 				for _, x := range menus[fi][pj] {
 					t := make([]snip, len(f.params))
 					for _, pk := range oi {
-						t[pk] = menus[fi][pk][0]
+						t[pk] = choice(pk, 0)
 					}
 					t[pj] = x
 					addTuple(t)
@@ -430,7 +461,7 @@ func (h *hetero) caseAt(i int64, fns []fn) caseT {
 	args := append([]snip{}, p.others[j%int64(len(p.others))]...)
 	args[p.pi] = spec.snip(h.kinds)
 	f := fns[p.fi]
-	return caseT{part: "h", name: f.name, what: label(f.name, args), req: request(callProto(symProto(f.name), protos(args)...))}
+	return caseT{part: "h", name: f.name, pos: p.pi, what: label(f.name, args), req: request(callProto(symProto(f.name), protos(args)...))}
 }
 
 func (h *hetero) describe() string {
